@@ -60,6 +60,11 @@ CLAIMED = {
    note='PARTIAL where the truth is in the runtime: FIFO/single-consumer behaviour of flume and delivery of each oneshot reply to its caller are assumed by the model and observed by the run, not proved. Trusted: Lean kernel + standard axioms; injected wall clock.',
    technique='Lean 4 proof (corollaries of the clock history theorem over all event lists) + actor-log replay through the model',
    ref='§8 C11'),
+ 'C17': dict(
+   text='The claim "each backend behaves like the reference model" is a refinement between external programs (SQLite, LMDB, an in-memory map) and a model, so it is decided differentially: identical call sequences (u64 boundary ids, empty/large payloads, tombstone-before-document, remove-then-reuse, real close+reopen at arbitrary points) through the three real backends and through the executable Lean reference model, observations compared after every call, the keyspace list through the relation listOk. What IS proved in Lean is that the reference model is a sound specification: keyspace isolation, put/get and tombstone/metadata exactness for every id and payload, bulk = fold of singles.',
+   note='PARTIAL at proof level by nature: SQLite/LMDB internals and power-loss durability are outside any Lean model; the proof is about the specification, the backends are tied to it by the correspondence run only. Out-of-contract calls (remove_tombstones on a live id) are not generated. Trusted: Lean kernel + standard axioms.',
+   technique='differential refinement against a Lean reference model (theorems about the model: isolation, exact read-back)',
+   ref='§8 C17'),
 }
 NA_REASON = 'check not built yet (work in progress; see DESIGN.md section 8)'
 
